@@ -185,13 +185,23 @@ fn case(a: &[u8], b: &[u8], out: &mut Local) {
                 // remapper
                 out.eval();
                 let r = guard(|| {
+                    // the remapper is given (1) the very strings the diff was built from and (2) equal
+                    // COPIES of them in other allocations (the tokens then live elsewhere)
+                    let (ca, cb) = (a.to_vec(), b.to_vec());
                     if as_str {
                         let (sa, sb) = (std::str::from_utf8(a).unwrap(), std::str::from_utf8(b).unwrap());
                         let d = diff_with(tok, alg, sa, sb);
-                        check_remapper(&d, sa, sb)
+                        let (mut f, n) = check_remapper(&d, sa, sb);
+                        let (sca, scb) = (std::str::from_utf8(&ca).unwrap(), std::str::from_utf8(&cb).unwrap());
+                        let (f2, n2) = check_remapper(&d, sca, scb);
+                        f.extend(f2.into_iter().map(|(c, m)| (c, format!("(remapper given equal copies of the texts) {}", m))));
+                        (f, n + n2)
                     } else {
                         let d = diff_with(tok, alg, a, b);
-                        check_remapper(&d, a, b)
+                        let (mut f, n) = check_remapper(&d, a, b);
+                        let (f2, n2) = check_remapper(&d, &ca[..], &cb[..]);
+                        f.extend(f2.into_iter().map(|(c, m)| (c, format!("(remapper given equal copies of the texts) {}", m))));
+                        (f, n + n2)
                     }
                 });
                 match r {
